@@ -6,6 +6,8 @@ use std::collections::{BTreeMap, BTreeSet};
 use std::io::Write;
 use std::process::{Command, Stdio};
 
+pub mod c07;
+pub mod c13;
 pub mod c14;
 pub mod c15;
 pub mod env;
@@ -216,9 +218,16 @@ impl Report {
     }
 }
 
+thread_local! {
+    static IN_CATCH: std::cell::Cell<u32> = std::cell::Cell::new(0);
+}
+
 /// Run `f`, turning a panic into `Err(message)`.
 pub fn catch<T>(f: impl FnOnce() -> T) -> Result<T, String> {
-    match std::panic::catch_unwind(std::panic::AssertUnwindSafe(f)) {
+    IN_CATCH.with(|c| c.set(c.get() + 1));
+    let r = std::panic::catch_unwind(std::panic::AssertUnwindSafe(f));
+    IN_CATCH.with(|c| c.set(c.get() - 1));
+    match r {
         Ok(v) => Ok(v),
         Err(e) => {
             let msg = if let Some(s) = e.downcast_ref::<&str>() {
@@ -233,8 +242,14 @@ pub fn catch<T>(f: impl FnOnce() -> T) -> Result<T, String> {
     }
 }
 
+/// panics of the code under test (inside `catch`) are expected and silent; a panic of the
+/// harness itself is printed
 pub fn silence_panics() {
-    std::panic::set_hook(Box::new(|_| {}));
+    std::panic::set_hook(Box::new(|info| {
+        if IN_CATCH.with(|c| c.get()) == 0 {
+            eprintln!("harness panic: {}", info);
+        }
+    }));
 }
 
 pub fn parse_args() -> Options {
@@ -281,6 +296,8 @@ pub fn main() {
     let opts = parse_args();
     silence_panics();
     let report = match opts.property.as_str() {
+        "C07" => c07::run(&opts),
+        "C13" => c13::run(&opts),
         "C14" => c14::run(&opts),
         "C15" => c15::run(&opts),
         other => {
